@@ -795,7 +795,8 @@ impl ContinuityStore {
         }
 
         let continuity_id = Uuid::new_v4().to_string();
-        self.create_continuity(workspace, Some(continuity_id), None, true)
+        let mut next_seq = self.next_seq.lock().expect("continuity seq mutex");
+        self.create_continuity(&mut next_seq, workspace, Some(continuity_id), None, true)
     }
 
     pub fn branch(
@@ -874,7 +875,10 @@ impl ContinuityStore {
         };
 
         let workspace = workspace_key(&self.workspace_root);
-        let thread_id = self.create_continuity(workspace, None, title, false)?;
+        // Hold the seq lock from the creation frame to the lineage frame: a client that learns the
+        // new thread id from the broadcast or the index must not be able to take seq 1 in between.
+        let mut next_seq = self.next_seq.lock().expect("continuity seq mutex");
+        let thread_id = self.create_continuity(&mut next_seq, workspace, None, title, false)?;
 
         let event = Event {
             id: Uuid::new_v4().to_string(),
@@ -901,10 +905,7 @@ impl ContinuityStore {
         rip_kernel::verif::point("store.publish");
         let _ = self.sender.send(event.clone());
 
-        self.next_seq
-            .lock()
-            .expect("continuity seq mutex")
-            .insert(thread_id.clone(), 2);
+        next_seq.insert(thread_id.clone(), 2);
 
         Ok((thread_id, parent_seq, parent_message_id))
     }
@@ -1000,7 +1001,10 @@ impl ContinuityStore {
         }
 
         let workspace = workspace_key(&self.workspace_root);
-        let thread_id = self.create_continuity(workspace, None, title, false)?;
+        // Hold the seq lock from the creation frame to the lineage frame: a client that learns the
+        // new thread id from the broadcast or the index must not be able to take seq 1 in between.
+        let mut next_seq = self.next_seq.lock().expect("continuity seq mutex");
+        let thread_id = self.create_continuity(&mut next_seq, workspace, None, title, false)?;
 
         if summary_artifact_id.is_none() {
             if let Some(markdown) = summary_markdown.as_ref() {
@@ -1044,10 +1048,7 @@ impl ContinuityStore {
         rip_kernel::verif::point("store.publish");
         let _ = self.sender.send(event.clone());
 
-        self.next_seq
-            .lock()
-            .expect("continuity seq mutex")
-            .insert(thread_id.clone(), 2);
+        next_seq.insert(thread_id.clone(), 2);
 
         Ok((thread_id, from_seq, from_message_id))
     }
@@ -3615,8 +3616,12 @@ impl ContinuityStore {
         Ok(best.map(|(_, id)| id))
     }
 
+    /// Creates a thread. The caller holds the seq lock (`next_seq`) and keeps holding it until
+    /// every frame it writes on the new thread itself is in the log: the thread is visible to
+    /// other clients (log, broadcast, index) from the moment its creation frame is written.
     fn create_continuity(
         &self,
+        next_seq: &mut HashMap<String, u64>,
         workspace: String,
         continuity_id: Option<String>,
         title: Option<String>,
@@ -3663,10 +3668,7 @@ impl ContinuityStore {
                 .map_err(|err| format!("save continuity index: {err}"))?;
         }
 
-        self.next_seq
-            .lock()
-            .expect("continuity seq mutex")
-            .insert(continuity_id.clone(), 1);
+        next_seq.insert(continuity_id.clone(), 1);
 
         Ok(continuity_id)
     }
